@@ -453,6 +453,25 @@ def check_ionq_program(ctx, rng, prog, program_input, metadata_records, problems
               "metadata decodes to %r, submitted %r, problems %r" % (got_keys, want_keys, problems), **wit)
 
 
+def _circuit_meaning(ctx, vendor, circuit, want, nwires, wit, resolver=None):
+    """"the circuit they were built from": Cirq's own matrix of the submitted circuit (measurements left out) is the
+    matrix the payload was judged against, so payload == catalogue == the circuit as Cirq itself understands it"""
+    import cirq
+
+    ops = [op for op in circuit.all_operations() if not cirq.is_measurement(op)]
+    body = cirq.Circuit(ops)
+    if resolver is not None:
+        body = cirq.resolve_parameters(body, resolver)
+    qs = cirq.LineQubit.range(nwires)
+    if not set(body.all_qubits()) <= set(qs) or nwires > 7:
+        ctx.event("circuit-meaning:skipped")
+        return
+    got = body.unitary(qubit_order=qs, qubits_that_should_be_present=qs)
+    ctx.check(L.phase_equal(got, want, UTOL), "circuit-meaning==reference", "C17:%s-circuit-meaning" % vendor,
+              lambda: "Cirq's own unitary of the submitted circuit differs from the reference the payload is compared with by %.3g (up to phase)"
+              % L.phase_diff(got, want), **wit)
+
+
 def sec_ionq_payload(ctx, rng, case):
     import cirq_ionq
 
@@ -482,6 +501,8 @@ def sec_ionq_payload(ctx, rng, case):
     if extra:
         problems = problems + ["unexpected metadata keys %r" % extra]
     check_ionq_program(ctx, rng, prog, inp, recs, problems, 0, wit, inp.get("qubits"), ser)
+    nwq = max(prog["idx"]) + 1
+    _circuit_meaning(ctx, "ionq", circuit, program_unitary(prog["ops"], nwq, prog["idx"]), nwq, wit)
     U = program_unitary(prog["ops"], len(prog["idx"]))
     ctx.distinct(("ionq", prog_fingerprint(prog)), nontrivial=bool(prog["keys"]) or not _is_identity_up_to_phase(U))
     ctx.sample({"program": prog, "payload": inp, "metadata": sp.metadata})
@@ -1137,6 +1158,7 @@ def sec_aqt_payload(ctx, rng, case):
     payload = json.loads(txt)
     nw = max(prog["idx"]) + 1
     want = program_unitary(prog["ops"], nw, prog["idx"])
+    _circuit_meaning(ctx, "aqt", circuit, want, nw, wit, resolver)
     try:
         steps, nmeas = AR.legacy_steps(payload)
         got = AR.unitary(steps, nw)
